@@ -497,6 +497,8 @@ func (s *session) step(f []string) string {
 			res = errClass(s.w.Remove(s.unstrip(arg(f, 2))))
 		case "list":
 		case "close":
+			simunix.Release() // a Close never races with withheld records: they are handled first
+			s.sync()
 			res = errClass(s.w.Close())
 			if !s.closed && !s.drainClosed() {
 				res = "reader-stuck"
